@@ -283,6 +283,41 @@ static Block *arena_alloc(size_t size, size_t align, int kind, OpCtx *ctx, bool 
 	return &ins.first->second;
 }
 
+// mmap(addr, len, ..., MAP_FIXED): the kernel maps exactly there and silently replaces whatever was mapped. In the arena that
+// is legal only over address space the caller had obtained and given back (freed blocks, e.g. a probe mapping); a live
+// block in the range belongs to somebody - replacing it is reported by the caller of this function.
+// Returns nullptr if a live block overlaps (*clobbered names its owner) or the range is not arena space handed out before.
+static Block *arena_alloc_at(uintptr_t addr, size_t len, int kind, OpCtx *ctx, std::string *clobbered) {
+	size_t npages = (len + PG - 1) / PG;
+	uintptr_t lo = addr, hi = addr + npages * PG;
+	if ((addr & (PG - 1)) || addr < g_arena || hi > g_arena + (g_zone[0].first_page + g_zone[0].bump + 1) * PG) return nullptr;
+	std::vector<uintptr_t> drop;
+	for (auto &kv : g_blocks) {
+		Block &b = kv.second;
+		if (!b.arena) continue;
+		uintptr_t blo = b.page_lo, bhi = b.page_lo + b.npages * PG;
+		if (bhi <= lo || blo >= hi) continue;
+		if (b.state == ST_LIVE) { if (clobbered) *clobbered = owner_of(b); return nullptr; }
+		drop.push_back(kv.first);
+	}
+	for (uintptr_t k : drop) {
+		Block &b = g_blocks[k];
+		auto it = g_freelist.find(std::make_pair(b.npages, (int)(b.kind == RQ_MMAP || b.kind == RQ_MMAP_HUGE) + 2 * b.zone));
+		if (it != g_freelist.end()) it->second.erase(std::remove(it->second.begin(), it->second.end(), b.page_lo), it->second.end());
+		g_blocks.erase(k);
+	}
+	madvise((void *)lo, npages * PG, MADV_DONTNEED);
+	arena_protect(lo, npages, PROT_READ | PROT_WRITE);
+	Block b;
+	b.arena = true; b.zone = 0; b.page_lo = lo; b.npages = npages; b.size = len; b.kind = kind; b.state = ST_LIVE; b.reused = true;
+	b.op_index = ctx->op_index; b.req_ord = ctx->requests; b.op_name = ctx->op_name; b.owner_class = ctx->owner_class;
+	b.user = lo;
+	b.prot.assign(npages, PROT_READ | PROT_WRITE);
+	b.hprot.assign(npages, -1);
+	auto ins = g_blocks.emplace(lo, std::move(b));
+	return &ins.first->second;
+}
+
 static void arena_free(Block &b) {
 	bool is_mmap = (b.kind == RQ_MMAP || b.kind == RQ_MMAP_HUGE);
 	if (!is_mmap) {
@@ -802,7 +837,16 @@ extern "C" void *__wrap_mmap(void *addr, size_t len, int prot, int flags, int fd
 	if (fail) errno = ENOMEM;
 	else {
 		Block *b = nullptr;
-		if (kArena) {
+		if (kArena && (flags & MAP_FIXED) && addr) {
+			std::string clobbered;
+			b = arena_alloc_at((uintptr_t)addr, len, kind, ctx, &clobbered);
+			if (!b) {
+				anomaly("MAP_FIXED_CLOBBER", clobbered.empty() ? std::string("mmap(MAP_FIXED) at an address the library did not own") : "mmap(MAP_FIXED) replaces a live mapping owner=" + clobbered);
+				seam_yield(rt::SITE_MMAP);
+				errno = ENOMEM; return MAP_FAILED;
+			}
+			if (prot != (PROT_READ | PROT_WRITE)) arena_protect(b->page_lo, b->npages, prot);
+		} else if (kArena) {
 			b = arena_alloc(len, PG, kind, ctx, true);
 			if (!b) { fprintf(stderr, "rxsim: arena exhausted\n"); abort(); }
 			if (prot != (PROT_READ | PROT_WRITE)) arena_protect(b->page_lo, b->npages, prot);
